@@ -347,7 +347,7 @@ pf_append_d_digits(
     const uint32_t maximum, // first_available_digits
     const uint32_t digits)
 {
-    if (pf_capacity_left(*out) >= maximum) // write directly
+    if (pf_capacity_left(*out) >= maximum + strlen(".")) // write directly
     {
         pf__append_d_digits(
             maximum, digits, out->data + out->length);
